@@ -20,7 +20,8 @@ cp $SO/patch.diff $OUT/patch.diff; cp $SO/notes.md $OUT/notes.md 2>/dev/null
 rm -rf $OUT/demo; mkdir -p $OUT/demo; (cd $DEMO && tar cf - --exclude target --exclude Cargo.lock . ) | tar xf - -C $OUT/demo
 echo "== check against /repo with the patch"
 cd /verif
-git -C /repo apply $SO/patch.diff && { ./check $P > $OUT/check_with_patch.log 2>&1; echo "check rc=$?"; grep -E "VIOLATION|KNOWN|CHECK-ERROR" $OUT/check_with_patch.log | head; }
+PATCH=$SO/patch.diff; if [ -f $SO/patch_adapted.diff ]; then PATCH=$SO/patch_adapted.diff; cp $PATCH $OUT/patch_adapted.diff; fi
+git -C /repo apply $PATCH && { ./check $P > $OUT/check_with_patch.log 2>&1; echo "check rc=$?"; grep -E "VIOLATION|KNOWN|CHECK-ERROR" $OUT/check_with_patch.log | head; }
 git -C /repo checkout -- .
 
 python3 - "$P" "$NAME" <<'PY'
